@@ -2,6 +2,7 @@
 other than NotImplementedError is a violation, clustered by (exception type, raising function)."""
 import random
 from vf.common import use_repo, rng_for
+from vf.props import _lock as L
 use_repo()
 
 ID = 'C18'
@@ -13,7 +14,7 @@ RULE = ('case = one real emulate_cycle() on (word, instruction set, IT position,
         'programs; a third of the VMSA steps run with the MMU on and translation registers (TTBCR incl. EAE, TTBRs, DACR, '
         'PRRR/NMRR, MAIR, HCR.VM/VTCR/VTTBR, HTCR/HTTBR) pointing at arbitrary RAM contents; every MCR/MRC (and MCRR/MRRC) '
         'register address of cp14/cp15 written then read on one long-lived instance with an audit that no register object '
-        'changed type, followed by take_reset(); non-trivial = the step got past decode (an opcode object executed or an architectural exception '
+        'changed type, followed by take_reset(); every data-accessing encoding row of the reference tables with register pools, field products and addresses solved onto RAM, device ends and the edges of the address space in twelve contexts (host errors only are judged here); non-trivial = the step got past decode (an opcode object executed or an architectural exception '
         'was taken); distinct = (instruction set, decoder path id or T16 word>>4, outcome, context)')
 ASSUMPTIONS = ['NotImplementedError escaping emulate_cycle is the documented not-implemented outcome',
                'machine states are generated valid (legal mode for the configuration, J=0, IT=0 in ARM state; VTCR.SL0/T0SZ '
@@ -41,6 +42,10 @@ def plan(tier, seed):
     nprog = 8 if q else 32
     for i in range(nprog):
         specs.append(dict(kind='programs', seed=seed, shard=i, n=120 if q else 4000, steps=50))
+    # every data-accessing encoding row of the reference tables with the generators of the lock-step checks (register
+    # pools, complete products of the narrow fields, addresses solved onto RAM / device ends / the edges of the address
+    # space, both endiannesses, all configurations): instructions whose deeper paths need an access that really reaches memory
+    specs += [dict(s_, kind='rows') for s_ in L.plan_rows(ID, ROW_FAMILY, tier, seed, 400, 12000, 16, 32)]
     # system-register sweep: every (coproc 14/15, opc1, CRn, CRm, opc2) written then read back on ONE long-lived
     # instance per shard (state is never restored in between)
     for cp in (14, 15):
@@ -263,8 +268,27 @@ def hostile_mmu(cpu, cfg, rng, ns):
         r.hmair1 = rng.getrandbits(32)
 
 
+ROW_FAMILY = ('ls', 'ldm', 'stm', 'push', 'pop', 'ldm_eret', 'ldm_user', 'stm_user', 'srs', 'rfe', 'tbb', 'ldrex', 'strex', 'swp')
+ROW_CTXS = [('v7-vmsa-virt', 'off'), ('v7-vmsa-sec', 'off'), ('v7-pmsa-r', 'off'), ('v6-pmsa-sec', 'off'), ('v6-pmsa', 'off'),
+            ('v5-pmsa', 'off'), ('v4-pmsa', 'off'), ('v6-vmsa', 'off'), ('v7-vmsa-virt-impdef', 'off'), ('v6-pmsa-sec', 'mpu'),
+            ('v7-vmsa-sec', 'mmu'), ('v7-vmsa-virt', 'mmu-ld')]
+
+
 def run_shard(spec):
     from vf import trace_decode as td
+    if spec['kind'] == 'rows':
+        def after(ctx, rng, desc):
+            r = ctx.cpu.registers
+            if ctx.cfg['arch_version'] >= 7:
+                r.sctlr.u = 1
+            elif ctx.cfg['arch_version'] == 6:
+                r.sctlr.u = rng.randrange(2)
+            r.sctlr.a = 1 if rng.random() < 0.2 else 0
+        # targets: the boundaries of the lock-step checks plus plain addresses INSIDE a RAM device in every alignment class
+        # (the access that simply succeeds is what takes an instruction down its deepest path)
+        targets = L.BOUNDARY_TARGETS + [0x100, 0x108, 0x110, 0x1F8, 0x104, 0x10C, 0x102, 0x101, 0x10800, 0x10808, 0x11000,
+                                        0x11008, 0x10804, 0x7000, 0x7008, 0xFFFFF800, 0xFFFFF808, 0xFFFFF804] * 2
+        return L.run_rows(ID, spec, ROW_FAMILY, ctxs=ROW_CTXS, after=after, solve_addr=0.85, host_only=True, solve_targets=targets)
     mon = Mon(spec)
     rng = mon.rng
     kind = spec['kind']
